@@ -8,6 +8,7 @@ CONSTANTS
   Fills = {}
   AbsWidths = {2, 4}
   EquOffs = {}
+  SelfKinds = {}
 INIT OInit
 NEXT ONext
 POSTCONDITION Accepted
